@@ -8,47 +8,31 @@ namespace PDesy
 /-! ### initialize -/
 
 def initLive (m : Model) (both : Bool) (l : Live) : Live :=
-  -- organization.initialize, task.initialize for every task, (PERT + ready gate follow)
+  -- organization.initialize, task.initialize for every task, (PERT + ready gate follow).
+  -- Every index is reset, not only those below the sizes: indices outside the ranges stand
+  -- for no object, and resetting them makes the initialised state independent of the old one.
   { l with
-    tstate := tabN m.nT fun t =>
-      if t < m.nT then (if both && decide ((m.task t).prog ≥ 1) then TS.finished else TS.none) else l.tstate t
-    rem := tabN m.nT fun t => if t < m.nT then (m.task t).work * (1 - (m.task t).prog) else l.rem t
-    est := tabN m.nT fun t => if t < m.nT then 0 else l.est t
-    eft := tabN m.nT fun t => if t < m.nT then 0 else l.eft t
-    lst := tabN m.nT fun t => if t < m.nT then -1 else l.lst t
-    lft := tabN m.nT fun t => if t < m.nT then -1 else l.lft t
-    allocW := tabN m.nT fun t => if t < m.nT then [] else l.allocW t
-    allocF := tabN m.nT fun t => if t < m.nT then [] else l.allocF t
-    wstate := tabN m.nW fun w => if w < m.nW then RS.free else l.wstate w
-    wasg := tabN m.nW fun w => if w < m.nW then [] else l.wasg w
-    fstate := tabN m.nF fun f => if f < m.nF then RS.free else l.fstate f
-    fasg := tabN m.nF fun f => if f < m.nF then [] else l.fasg f
-    wpComps := tabN m.nWp fun p => if p < m.nWp then [] else l.wpComps p }
+    tstate := tabN m.nT fun t => if both && decide ((m.task t).prog ≥ 1) then TS.finished else TS.none
+    rem := tabN m.nT fun t => (m.task t).work * (1 - (m.task t).prog)
+    est := fun _ => 0
+    eft := fun _ => 0
+    lst := fun _ => -1
+    lft := fun _ => -1
+    allocW := fun _ => []
+    allocF := fun _ => []
+    wstate := fun _ => RS.free
+    wasg := fun _ => []
+    fstate := fun _ => RS.free
+    fasg := fun _ => []
+    wpComps := fun _ => [] }
 
 def initComps (m : Model) (l : Live) : Live :=
   let l1 := { l with
-    cstate := fun c => if c < m.nC then CS.none else l.cstate c
-    placed := fun c => if c < m.nC then Option.none else l.placed c }
+    cstate := fun _ => CS.none
+    placed := fun _ => Option.none }
   compCheck m l1
 
-def clearLogs (m : Model) (lg : Logs) : Logs :=
-  { tState := fun t => if t < m.nT then [] else lg.tState t
-    tRem := fun t => if t < m.nT then [] else lg.tRem t
-    tAllocW := fun t => if t < m.nT then [] else lg.tAllocW t
-    tAllocF := fun t => if t < m.nT then [] else lg.tAllocF t
-    wState := fun w => if w < m.nW then [] else lg.wState w
-    wCost := fun w => if w < m.nW then [] else lg.wCost w
-    wAsg := fun w => if w < m.nW then [] else lg.wAsg w
-    fState := fun f => if f < m.nF then [] else lg.fState f
-    fCost := fun f => if f < m.nF then [] else lg.fCost f
-    fAsg := fun f => if f < m.nF then [] else lg.fAsg f
-    teamCost := fun tm => if tm < m.nTeam then [] else lg.teamCost tm
-    wpCost := fun p => if p < m.nWp then [] else lg.wpCost p
-    wpPlaced := fun p => if p < m.nWp then [] else lg.wpPlaced p
-    orgCost := []
-    projCost := []
-    cState := fun c => if c < m.nC then [] else lg.cState c
-    cPlaced := fun c => if c < m.nC then [] else lg.cPlaced c }
+def clearLogs (_m : Model) (_lg : Logs) : Logs := Logs.empty
 
 /-- `BaseProject.initialize(state_info, log_info)` -/
 def initProject (m : Model) (stateInfo logInfo : Bool) (s : St) : St :=
